@@ -512,6 +512,28 @@ Theorem source_cut_straight_labels_property argsort n D nc th sort (e0 : env) :
 Proof. exact (src_cut_straight_labels_property argsort n D nc th sort e0). Qed.
 Print Assumptions source_cut_straight_labels_property.
 
+(** cut_straight end to end, return_dendrogram included, on a dendrogram that is cut as given ([cut_input D ret = Ok D]: ret = false,
+    or heights already sorted): the labels and the reduced dendrogram of the model, or its error. *)
+Theorem source_cut_straight_end_to_end argsort n D nc th sort ret (e0 : env) :
+  valid n D = true -> argsort_ok argsort -> cut_input D ret = Ok D ->
+  e0 "dendrogram" = Some (embD D) -> e0 "n" = Some (vnat n) ->
+  e0 "n_clusters" = Some (embON nc) -> e0 "threshold" = Some (embOQ th) -> e0 "sort_clusters" = Some (VBool sort) ->
+  (forall st, (match cut_height D nc th with
+               | Err e => Err e
+               | Ok cut => replay (straight_guard cut) (S (List.length D)) D (init_clusters (S (List.length D)))
+               end) = Ok st -> e0 "oracle:np.argsort" = Some (oracle_answer argsort st)) ->
+  match cut_straight argsort D nc th sort ret with
+  | Ok (labels, od) =>
+      exists e', exec (src_cut_straight_all ret) e0 = POk e' /\ e' "labels" = Some (VList (map vnat labels)) /\
+                 match od with
+                 | Some Dnew => ret = true /\ e' "dendrogram_new" = Some (VList (map embNewRow Dnew))
+                 | None => ret = false
+                 end
+  | Err er => exec (src_cut_straight_all ret) e0 = PErr (conv er)
+  end.
+Proof. exact (src_cut_straight_end_to_end_ret argsort n D nc th sort ret e0). Qed.
+Print Assumptions source_cut_straight_end_to_end.
+
 (** The statements around the translated fragments (the reorder step of cut_straight, the argument lists of the two
     [return get_labels(...)], the initialisation before the loop of get_labels) are pinned to the reviewed text; they
     are covered by the hand-written model and the correspondence runs only. *)
